@@ -408,12 +408,12 @@ tags: refund{C.RESET}
         section("Filter Primitives")
         primitives = [
             ('months', 'Number of months with transactions', 'filter: months >= 6'),
-            ('payments', 'Total number of transactions', 'filter: payments >= 12'),
+            ('payments', 'List of payment amounts (count them with count())', 'filter: count(payments) >= 12'),
             ('total', 'Total spending for this merchant', 'filter: total > 1000'),
             ('cv', 'Coefficient of variation (consistency)', 'filter: cv < 0.3'),
             ('category', 'Merchant category', 'filter: category == "Subscriptions"'),
             ('subcategory', 'Merchant subcategory', 'filter: subcategory == "Streaming"'),
-            ('tags', 'Merchant tags (contains check)', 'filter: tags has "business"'),
+            ('tags', 'Merchant tags (membership check)', 'filter: "business" in tags'),
         ]
         for prim, desc, example in primitives:
             print(f"  {C.GREEN}{prim:<12}{C.RESET} {desc}")
@@ -457,9 +457,9 @@ tags: refund{C.RESET}
         section("Logical Operators")
         print(f"""
   {C.GREEN}and{C.RESET}   Both conditions       {C.DIM}months >= 6 and cv < 0.3{C.RESET}
-  {C.GREEN}or{C.RESET}    Either condition      {C.DIM}category == "Bills" or tags has "recurring"{C.RESET}
+  {C.GREEN}or{C.RESET}    Either condition      {C.DIM}category == "Bills" or "recurring" in tags{C.RESET}
   {C.GREEN}not{C.RESET}   Negation              {C.DIM}not category == "Income"{C.RESET}
-  {C.GREEN}has{C.RESET}   Contains (for tags)   {C.DIM}tags has "business"{C.RESET}
+  {C.GREEN}in{C.RESET}    Membership (for tags) {C.DIM}"business" in tags{C.RESET}
 """)
 
         section("View Examples")
@@ -480,7 +480,7 @@ filter: category == "Subscriptions" and subcategory == "Streaming"
 # Business expenses for reimbursement
 [Business]
 description: Expenses to submit for reimbursement
-filter: tags has "business"
+filter: "business" in tags
 
 # Variable recurring (same merchant, different amounts)
 [Utilities]
